@@ -62,3 +62,39 @@ def rsa_odd_modulus(inp):
                 if key.verify_ssh_sig(b"payload", m) is not True:
                     bad.append("RSA %d-bit, %s: genuine signature rejected by the %s" % (bits, alg, who))
     return {"violates": bool(bad), "detail": bad[:3]}
+
+
+def ecdsa_unpadded_integers(inp):
+    """a genuine ECDSA signature whose r or s has its top bit set, re-encoded without the leading zero byte: on the wire
+    that integer is negative, so it is not the signature that was made and must be refused (and nothing may be raised)"""
+    from cryptography.hazmat.primitives.asymmetric.utils import decode_dss_signature
+    bad = []
+    n = 0
+    for bits in (256, 384, 521):
+        key = ECDSAKey.generate(bits=bits)
+        for i in range(40):
+            data = b"data-%d" % i
+            sig = key.sign_ssh_data(data)
+            sig.rewind()
+            name = sig.get_text()
+            inner = Message(sig.get_binary())
+            r, s_ = inner.get_mpint(), inner.get_mpint()
+
+            def raw(v, strip):
+                b = v.to_bytes((v.bit_length() + 8) // 8, "big")          # canonical: with sign padding where needed
+                return b[1:] if strip and b[0] == 0 and len(b) > 1 and b[1] >= 0x80 else b
+            for strip_r, strip_s in ((True, False), (False, True), (True, True)):
+                rb, sb = raw(r, strip_r), raw(s_, strip_s)
+                if (rb, sb) == (raw(r, False), raw(s_, False)):
+                    continue
+                n += 1
+                blob = Message().add_string(name).add_string(Message().add_string(rb).add_string(sb).asbytes()).asbytes()
+                try:
+                    ans = key.verify_ssh_sig(data, Message(blob))
+                except Exception as e:
+                    bad.append({"curve": bits, "why": "raised %r" % (e,)})
+                    continue
+                if ans is not False:
+                    bad.append({"curve": bits, "r_len": len(rb), "s_len": len(sb),
+                                "why": "signature with r/s sent without sign padding (negative integer) answered %r" % (ans,)})
+    return {"violates": bool(bad), "evaluations": n, "detail": bad[:4]}
